@@ -340,7 +340,7 @@ theorem strE_subscript_tuple {S a cs enc ps} (h : strE S (.subscript a (.tuple c
       toks ps = wrapT (wrappedE S enc (.subscript a (.tuple cs)))
         (toks x ++ .sym "[" :: (seqT false xs ++ [.sym "]"])) := by
   simp only [strE, bind_eq_ok, pure, Except.pure, Except.ok.injEq] at h
-  obtain ⟨x, hx, xs, hxs, rfl⟩ := h
+  obtain ⟨xs, hxs, x, hx, rfl⟩ := h
   refine ⟨x, xs, hx, hxs, ?_⟩
   simp [toks_parenIf, wrappedE, kind, wrappedK, Kind.myPrec, toks_joinWith_comma]
 
@@ -352,7 +352,7 @@ theorem strE_subscript {S a i enc ps} (hi : ∀ cs, i ≠ .tuple cs)
   have hi' : ∀ cs, i = .tuple cs → False := hi
   rw [strE] at h
   · simp only [bind_eq_ok, pure, Except.pure, Except.ok.injEq] at h
-    obtain ⟨x, hx, y, hy, rfl⟩ := h
+    obtain ⟨y, hy, x, hx, rfl⟩ := h
     refine ⟨x, y, hx, hy, ?_⟩
     simp [toks_parenIf, wrappedE, kind, wrappedK, Kind.myPrec]
   · exact hi'
@@ -373,7 +373,7 @@ theorem strE_callKw {S f as ns vs enc ps} (h : strE S (.callKw f as ns vs) enc =
     ∃ x xs ys, strE S f S.call = .ok x ∧ strL S as S.none = .ok xs ∧ strL S vs S.none = .ok ys ∧
       toks ps = toks x ++ .sym "(" :: (seqT false (xs ++ kwPieces ns ys) ++ [.sym ")"]) := by
   simp only [strE, bind_eq_ok, pure, Except.pure, Except.ok.injEq] at h
-  obtain ⟨x, hx, xs, hxs, ys, hys, rfl⟩ := h
+  obtain ⟨xs, hxs, ys, hys, x, hx, rfl⟩ := h
   refine ⟨x, xs, ys, hx, hxs, hys, ?_⟩
   simp [toks_joinWith_comma, kwPieces]
 
